@@ -23,7 +23,7 @@ EXPLANATION = (
 )
 FUNCTIONS = ["xdsl.transforms.dead_code_elimination.DeadCodeElimination/region_dce/LiveSet/dce/is_trivially_dead/would_be_trivially_dead/result_only_effects",
              "xdsl.traits.get_effects", "xdsl.ir.post_order.PostOrderIterator", "GreedyRewritePatternApplier trivially-dead removal (through canonicalize)"]
-ASSUMPTIONS = ["reference semantics vx/refprog.py: test.op / unregistered ops have unknown observable effects, test.pureop is pure, func.call of a declaration is an external effect, memref.store is an effect",
+ASSUMPTIONS = ["reference semantics vx/refprog.py: test.op / unregistered ops have unknown observable effects, test.pureop is pure, func.call of a declaration is an external effect, memref.store and memref.dealloc are effects",
                "effect table of the auxiliary structural check: an op is removable iff it is arith/test.pureop/memref.load/alloc-only, non-terminator, non-symbol and all results unused"]
 OUTSIDE = ["programs outside the family", "the liveness fixpoint as a graph property beyond the listed CFG shapes"]
 STUBS = []
@@ -146,6 +146,19 @@ func.func @f(%x: i8, %i: index) -> i8 {
   memref.store %x, %m[%i] : memref<4xi8>
   %m2 = memref.alloc() : memref<4xi8>
   %l = memref.load %m[%i] : memref<4xi8>
+  func.return %l : i8
+}""",
+    "dealloc_kept": """
+func.func @f(%x: i8, %i: index, %c: i1) -> i8 {
+  %m = memref.alloc() : memref<4xi8>
+  memref.store %x, %m[%i] : memref<4xi8>
+  %l = memref.load %m[%i] : memref<4xi8>
+  scf.if %c {
+    memref.dealloc %m : memref<4xi8>
+  }
+  %n = memref.alloc() : memref<4xi8>
+  memref.store %l, %n[%i] : memref<4xi8>
+  memref.dealloc %n : memref<4xi8>
   func.return %l : i8
 }""",
 }
